@@ -23,8 +23,13 @@ try:
     if ap.returncode:
         print("patch does not apply:", ap.stderr[:300]); sys.exit(3)
     rc_mut, out_mut = run_demo()
-    b = subprocess.run([sys.executable, os.path.join(VERIF, "selftest", "baseline.py"), wt], capture_output=True, text=True,
-                       env=dict(os.environ, BASELINE_N="8"))
+    for attempt in range(3):
+        # the suite contains randomised hypothesis tests (tests/property_tests/test_strops.py) that now and then find a
+        # counter-example on the clean tree too: a run with missing tests is repeated before the change is blamed
+        b = subprocess.run([sys.executable, os.path.join(VERIF, "selftest", "baseline.py"), wt], capture_output=True, text=True,
+                           env=dict(os.environ, BASELINE_N="8"))
+        if b.returncode == 0 or "test_strops" not in b.stdout:
+            break
     base_line = [l for l in b.stdout.splitlines() if l.startswith("stable_pass")]
     meta["confirmed"] = {"demo_on_clean_tree_exit": rc_clean, "demo_with_patch_exit": rc_mut,
                          "demo_with_patch_tail": out_mut.strip().splitlines()[-3:],
